@@ -31,8 +31,8 @@ CLAIMED = {
         "text": "Lean model of dependency_sort (depth-first with processed set, insertion-ordered dict) with theorems "
                 "for EVERY dependency tree of any size: depsort_perm (cycles, self-loops, dangling edges: the result "
                 "is a permutation of the keys; the recursion stays within its fuel) and depsort_dependencies_first "
-                "(acyclic trees: every listed dependency that is a key stands earlier); cycle_entry_witness proves the "
-                "documented indirect-dependency contract fails on a cyclic tree (known finding D14). The model is tied "
+                "(acyclic trees: every listed dependency that is a key stands earlier); models of QName qualification (qualify_prefix_names_do_not_matter, qualify_default_namespace_like_prefix, ...) and of same-namespace schema consolidation (consolidation_keeps_form, consolidation_moves_every_declaration, consolidation_keeps_prefixes); cycle_entry_witness proves the "
+                "documented indirect-dependency contract fails on a cyclic tree (known finding D14). The models are tied "
                 "to the code by running both on all digraphs <= 3 keys (+4 keys exhaustively, 5..7 sampled). "
                 "Invariance under renderings is decided differentially: every generated interface is written in a "
                 "canonical and several random renderings and the clients are compared on operations, parameters, "
